@@ -352,7 +352,13 @@ func c15Trees(uni []string, salt int) []fsmodel.Tree {
 			return &fsmodel.Node{Path: p, Kind: fsmodel.File, Perm: 0644, Mtime: fsmodel.T0 + int64(salt) + 1, Data: []byte(fmt.Sprintf("%c:%s", 'S'+rune(salt), p))}
 		}},
 		{"sym", func(p string) *fsmodel.Node {
-			return &fsmodel.Node{Path: p, Kind: fsmodel.Symlink, Perm: 0777, Mtime: fsmodel.T0 + int64(salt) + 2, Link: fmt.Sprintf("t%d", salt)}
+			link := fmt.Sprintf("t%d", salt)
+			if salt == 1 {
+				// destination symlinks point at other names of the universe, so that in many trees they
+				// resolve to an existing directory or file inside the destination
+				link = map[string]string{"x": "w", "x/y": "../w", "x/z": "y", "w": "x"}[p]
+			}
+			return &fsmodel.Node{Path: p, Kind: fsmodel.Symlink, Perm: 0777, Mtime: fsmodel.T0 + int64(salt) + 2, Link: link}
 		}},
 	}
 	return fsmodel.Shapes(uni, kinds)
